@@ -181,6 +181,8 @@ def gen_case(rng, tier, est=None, seeded=None):
                 o["sigma"] = sg
             if o["backend"] != "np":
                 o["sched"] = gen_sched(rng)
+            if est in ("isv", "jfa", "isv_array", "jfa_array") and rng.random() < 0.2:
+                o["rejected_first"] = True
             ops.append(o)
             fits_done += 1
     if case["cfg"].get("seeded") and rng.random() < 0.5:
@@ -337,6 +339,31 @@ def _fit(case, o, rec, label):
         else:
             m = JFAMachine(cfg["rU"], cfg["rV"], em_iterations=cfg["it"],
                            relevance_factor=cfg["rf"], random_state=cfg["rs"], **ukw)
+        if o.get("rejected_first"):
+            # a first call with class ids that do not start at 0 is refused while the machine
+            # is being initialised; the caller catches the exception and trains the same object
+            ybad = np.asarray(data["y"]) + 1
+            try:
+                with dask.config.set(scheduler="synchronous"):
+                    if est.endswith("_array"):
+                        m.fit_using_array(data["X"], ybad)
+                    else:
+                        m.fit(data["stats"], ybad)
+                refused = False
+            except Exception:
+                refused = True
+            rec.probe("rejected_call_before_fit_" + ("raised" if refused else "accepted"))
+            if not refused:
+                # (accepted: the machine has legitimately been trained on other labels, and
+                # ISV / JFA continue from their state - start again with a new one)
+                if est.startswith("isv"):
+                    m = ISVMachine(cfg["rU"], em_iterations=cfg["it"], relevance_factor=cfg["rf"],
+                                   random_state=cfg["rs"], **ukw)
+                else:
+                    m = JFAMachine(cfg["rU"], cfg["rV"], em_iterations=cfg["it"],
+                                   relevance_factor=cfg["rf"], random_state=cfg["rs"], **ukw)
+            else:
+                rec.faults["F10_rejected_call"] = rec.faults.get("F10_rejected_call", 0) + 1
         if est.endswith("_array"):
             X = data["X"]
             res = under(lambda: m.fit_using_array(
